@@ -4,7 +4,7 @@ import copy
 import numpy as np
 from hypothesis import strategies as st
 
-from vf import gen, ref, popgen, llbuild, hbuild, sbmlgen
+from vf import core, gen, ref, popgen, llbuild, hbuild, sbmlgen
 
 ID = 'C19'
 BUDGET = {'quick': 220, 'thorough': 6000}
@@ -480,6 +480,8 @@ def check(case):
                 case.close(g, g2, rtol=1e-12, what='%s.evaluateS1 gradient after %d in-place updates' % (label, rnd))
                 if isinstance(g, np.ndarray):
                     returned.append(('%s.evaluateS1(buffer), round %d' % (label, rnd), [g], [g.copy()]))
+                if not core.still_writeable(case, buf, '%s.__call__ / evaluateS1' % label):
+                    break
                 buf[j] *= 1.013          # in place: the same array object is passed again
 
     with case.clause('returned_results_stable'):
@@ -516,6 +518,7 @@ def check(case):
     with case.clause('inputs_unchanged'):
         for label, obj, cp in fam.inputs:
             case.true(np.array_equal(obj, cp, equal_nan=True), 'input %s was modified' % label)
+            core.still_writeable(case, obj, 'an evaluation (input %s)' % label)
 
     if s['par'] is not None:
         case.labels.append('parallel')
